@@ -48,21 +48,26 @@ func (h HelperContext) BlockWith(hc hctx.Context) (string, error) {
 		return "", fmt.Errorf("expected *Context, got %T", hc)
 	}
 
-	octx := h.compiler.ctx
-	defer func() { h.compiler.ctx = octx }()
-	h.compiler.ctx = ctx
-
 	if h.block == nil {
 		return "", fmt.Errorf("no block defined")
 	}
 
-	i, err := h.compiler.evalBlockStatement(h.block)
+	// the block is evaluated by a copy of the evaluator working in ctx: a block
+	// stored by contentFor may be replayed long after the execution that stored
+	// it, and from several goroutines at once, so that execution's evaluator
+	// (its scope pointer in particular) must not be touched
+	ev := *h.compiler
+	ev.ctx = ctx
+
+	i, err := ev.evalBlockStatement(h.block)
 	if err != nil {
+		// the statement that failed is the one the error is reported at
+		h.compiler.curStmt = ev.curStmt
 		return "", err
 	}
 
 	bb := &strings.Builder{}
-	h.compiler.write(bb, i)
+	ev.write(bb, i)
 
 	return bb.String(), nil
 }
